@@ -204,9 +204,12 @@ def words_scope(res, pid, rng, tier):
         lines_sw += ["description %s peer %s\n" % (words[-1], render(h).strip()) for h in gen_history(rng, 4, classes=["text"])]
         outs_sw, _ = run_lines(cfgw, lines_sw)
         res.evaluations += len(lines_sw)
+        from netconan.default_reserved_words import default_reserved_words as _drw
+        confl_sw = set(x.lower() for x in _drw if any(w_.lower() in x.lower() for w_ in words))
         for ln, o in zip(lines_sw, outs_sw):
             for w in words:
-                if ci_contains(o, w):
+                # (a token that is exactly a reserved word is kept as it is - e.g. the listed word `uri` itself)
+                if any(ci_contains(tok_, w) for tok_ in o.split() if tok_.lower() not in confl_sw):
                     fails.append({"kind": "a listed sensitive word survives on a line that also holds a secret", "cfg": cfgw.describe(),
                                   "line": ln, "output": o, "word": w})
     # the command line passes user reserved words through unchanged (a reserved secret value in capitals stays)
